@@ -408,6 +408,10 @@ class NPShim:
         return real_np.repeat(a, n, **kw)
 
     def ix_(self, *args):
+        if any(getattr(a, '_is_torch_tensor', False) for a in args):
+            # numpy.repeat / ix_ of a torch bool tensor give uint8 arrays of 0/1 *values* (not positions); torch then
+            # reads them as masks of the wrong shape.  Keep that: uint8 open-mesh arrays, judged by the tensor stand-in.
+            return real_np.ix_(*[real_np.array([int(bool(x)) for x in real_np.asarray(a).reshape(-1)], dtype=real_np.uint8) for a in args])
         return real_np.ix_(*[real_np.asarray(_norm_index(real_np.asarray(a))) if isinstance(a, real_np.ndarray) else a for a in args])
 
     def count_nonzero(self, a, *args, **kw):
